@@ -36,9 +36,28 @@ def relay_session(rng):
     return chunks
 
 
+def literal_session(rng, lip):
+    """recipients with address literals around the server's own address 192.0.2.<lip>: exact, every proper prefix that is
+    still a valid address, extensions, neighbours - only the exact one is local, the others need the relay entitlement"""
+    own = '192.0.2.' + lip
+    cands = [own] + [own[:k] for k in range(len('192.0.2.') + 1, len(own))] + [own + d for d in '05' if int(lip + d) <= 255] + ['192.0.2.77', '192.0.2', '10.0.0.1']
+    cands = [c for c in cands if c.count('.') == 3 and not c.endswith('.')]
+    chunks = [rng.choice([b'HELO c.example.net\r\n', b'EHLO c.example.net\r\n']), session_gen.mail(rng, 'ok')]
+    for _ in range(rng.choice([2, 3, 5])):
+        c = rng.choice(cands)
+        chunks.append(b'RCPT TO:<' + rng.choice([b'alice', b'victim', b'x']) + b'@[' + c.encode() + b']>\r\n')
+        if rng.random() < 0.3: chunks.append(session_gen.rcpt(rng, rng.choice(['ok', 'remote'])))
+    chunks += [b'DATA\r\n', b'Subject: t\r\n\r\nbody\r\n.\r\n']
+    return chunks
+
+
 def gen_cases(engine, rng, tier):
     n = 300 if tier == 'quick' else 6000
     out = []
+    for _ in range(n // 5):
+        lip = rng.choice(['2', '25', '25', '125', '250'])
+        cfg = 'relay=%s;ip=v4;databytes=0;qq=ok,ok;lip=%s' % (rng.choice(['none', 'none', 'listed', 'unlisted']), lip)
+        out.append(session_gen.case(cfg, literal_session(rng, lip)))
     for _ in range(n):
         cfg = 'relay=%s;ip=%s;databytes=0;qq=ok,ok,ok,ok' % (rng.choice(['none', 'listed', 'unlisted', 'badsize', 'badprefix', 'unreadable']), rng.choice(['v4', 'v6']))
         out.append(session_gen.case(cfg, relay_session(rng)))
